@@ -428,10 +428,20 @@ def propagateStep (cfg : Cfg) (c : Con) (b : Box) (t : Nat × Int) : Box :=
     let b := applyBlock cfg blockNegUpper b c k ak (c.ty == .gt)
     if c.ty != .eq then b else applyBlock cfg blockNegLower b c k ak false
 
+/-- `propagate_constraint_no_check` (Box_templates.hh:2617).  The trivial case (lines 2633–2645) is the test of the
+repaired tree (/repo dee742e): `n < 0 || (n == 0 && STRICT_INEQUALITY) || (n > 0 && EQUALITY)`. -/
 def propagateConstraintNoCheck (cfg : Cfg) (b : Box) (c : Con) : Box :=
   match c.e.terms with
   | [] =>
-    -- trivial constraint (lines 2633–2641)
+    if c.e.inhom < 0 || (c.e.inhom == 0 && c.ty == .gt) || (c.e.inhom > 0 && c.ty == .eq) then b.setEmpty else b
+  | ts => ts.foldl (propagateStep cfg c) b
+
+/-- the function as written before /repo dee742e (KF-C03-64): the trivial case tested
+`n < 0 || (n == 0 && type != NONSTRICT_INEQUALITY)`, which is true of the tautology `0 == 0` and false of the
+inconsistent `b == 0`, `b > 0`.  Kept as the historical witness `…_before_fix_fails`. -/
+def propagateConstraintNoCheckBeforeFix (cfg : Cfg) (b : Box) (c : Con) : Box :=
+  match c.e.terms with
+  | [] =>
     if c.e.inhom < 0 || (c.e.inhom == 0 && c.ty != .ge) then b.setEmpty else b
   | ts => ts.foldl (propagateStep cfg c) b
 
